@@ -628,25 +628,40 @@ impl FieldProjectionResolver {
         Ok(candidates)
     }
 
+    /// The components of a product as its materialized route and the run-time layout number
+    /// them: a tail continues the spine only when it is a product without opening a sealed
+    /// definition. A sealed tail is the last component and is searched as a product of its own.
     fn product_components_k(
         tycker: &mut Tycker<'_>, product: DeferredEnvType,
     ) -> ResultKont<Vec<DeferredEnvType>> {
-        let mut next = Some(product);
-        std::iter::from_fn(|| {
-            let current = next.take()?;
-            let view = match current.reveal_k(tycker) {
-                | Ok(view) => view,
-                | Err(KontFailure) => return Some(Err(KontFailure)),
-            };
+        let mut components = Vec::new();
+        let mut view = product.reveal_k(tycker)?;
+        loop {
             match view {
                 | DeferredEnvTypeView::Product { head, tail, .. } => {
-                    next = Some(tail);
-                    Some(Ok(head))
+                    components.push(head);
+                    let materialized = tail.materialize_k(tycker)?;
+                    match tycker.type_filled_k(&materialized)?.to_owned() {
+                        | ty @ ss::Type::Prod(_) => {
+                            view = DeferredEnvType::materialized(
+                                materialized,
+                                tail.environment.clone(),
+                            )
+                            .view(ty);
+                        }
+                        | _ => {
+                            components.push(tail);
+                            break;
+                        }
+                    }
                 }
-                | view => Some(Ok(view.into_whole())),
+                | view => {
+                    components.push(view.into_whole());
+                    break;
+                }
             }
-        })
-        .collect()
+        }
+        Ok(components)
     }
 
     fn r#type(
